@@ -37,6 +37,9 @@ TABLE = [
     (N, "YeoJohnson", "_derivative", "YeoJohnson_derivative"),
     (N, "Modulus", "_normalize", "Modulus_normalize"), (N, "Modulus", "_denormalize", "Modulus_denormalize"), (N, "Modulus", "_derivative", "Modulus_derivative"),
     (N, "Manly", "_normalize", "Manly_normalize"), (N, "Manly", "_denormalize", "Manly_denormalize"), (N, "Manly", "_derivative", "Manly_derivative"),
+    ("covmodel/tools.py", None, "rad_fac", "rad_fac"),
+    (A, None, "array_to_lognormal", "array_to_lognormal"), (A, None, "array_zinnharvey", "array_zinnharvey"),
+    (A, None, "array_boxcox", "array_boxcox"),
     (A, None, "_uniform_to_arcsin", "uniform_to_arcsin"), (A, None, "_uniform_to_uquad", "uniform_to_uquad"),
     (G, None, "great_circle_to_chordal", "great_circle_to_chordal"), (G, None, "chordal_to_great_circle", "chordal_to_great_circle"),
 ]
